@@ -21,6 +21,8 @@ func runC05(r *engine.Run) {
 	r.Rule("AGREE-roundkey", "uint64ToBytes (writer) and bytesToUint64 (reader) use the same, big-endian byte order (the early break of the prune iteration relies on ascending key order)")
 	r.Rule("WHO-livedelete", "see C04: a node the rebuilt trie still references is never handed to deleteNode (it would be recorded dead while reachable)")
 	r.Rule("DOM-samekey", "see C04: an unchanged re-write is not reported to the change collector (its hash would enter the dead set while live)")
+	r.Rule("DEP-recordonly", "in RecordDeadNodes the record object is filled only by map stores whose keys derive from the nodes argument and is handed only to saveDeadNodes: the record of a round is exactly what this execution of the round reported (no merge with an earlier record of the same round)")
+	r.Rule("DOM-mergeall", "see C03: a change skipped by mergeChanges is never taken out of the dead set again (AddChange is what revives a re-created node)")
 	r.NotDec = append(r.NotDec, "reachability of recorded nodes from later roots (graph property of runtime content)")
 	domCancel(r)
 	agreeHash(r, "DEP-origin")
@@ -29,6 +31,8 @@ func runC05(r *engine.Run) {
 	freshNode(r, "C05")
 	whoLiveDelete(r, "WHO-livedelete")
 	domSameKey(r, "DOM-samekey")
+	depRecordOnly(r, "DEP-recordonly")
+	domMergeAll(r, "DOM-mergeall")
 }
 
 func domCancel(r *engine.Run) {
@@ -361,4 +365,62 @@ func agreeRoundKey(r *engine.Run) {
 	wo, ro := order(w, "PutUint64"), order(rd, "Uint64")
 	r.Check(wo != "" && wo == ro, rule, "uint64ToBytes/bytesToUint64|same order", r.P.Pos(w.Pos()), "writer and reader both use "+wo, fmt.Sprintf("round keys are written with %q and read with %q", wo, ro))
 	r.Check(wo == "bigEndian", rule, "uint64ToBytes|big-endian", r.P.Pos(w.Pos()), "big-endian keys sort by round", "round keys are not big-endian: the iteration order is not by round, so the early break of the prune loop skips or includes the wrong rounds")
+}
+
+// depRecordOnly: the dead-node record written for a round consists of the nodes
+// reported for this execution of the round, nothing else: in RecordDeadNodes the
+// record object is filled only by map stores keyed by GetHash() of an element of
+// the nodes argument and handed to saveDeadNodes; nothing decodes or merges
+// another record into it (a crashed earlier execution of the same round may
+// have reported nodes that the winning execution keeps).
+func depRecordOnly(r *engine.Run, rule string) {
+	f := r.Fn(rule, pkgUtil, "PNodeDB", "RecordDeadNodes")
+	if f == nil {
+		return
+	}
+	var rec *ssa.Alloc
+	engine.Instrs(f, func(in ssa.Instruction) {
+		if al, ok := in.(*ssa.Alloc); ok {
+			if nm := namedOf(al.Type()); nm != nil && nm.Obj().Name() == "deadNodes" {
+				rec = al
+			}
+		}
+	})
+	if rec == nil {
+		r.Anchor(rule, fmt.Errorf("unresolved anchor: dead-node record object of %s", fn(f)))
+		return
+	}
+	bad := ""
+	saved := false
+	for _, ref := range engine.Referrers(rec) {
+		switch x := ref.(type) {
+		case *ssa.FieldAddr:
+			// map stores into the Nodes field are checked below
+		case *ssa.Call:
+			if sc := x.Call.StaticCallee(); sc != nil && sc.Name() == "saveDeadNodes" {
+				saved = true
+			} else {
+				bad = "the record object is handed to " + engine.CalleeName(x) + " at " + r.P.Pos(x.Pos())
+			}
+		case *ssa.Store:
+			if x.Addr != ssa.Value(rec) {
+				bad = "the record object escapes at " + r.P.Pos(x.Pos())
+			}
+		}
+	}
+	nodesP := f.Params[1]
+	engine.Instrs(f, func(in ssa.Instruction) {
+		mu, ok := in.(*ssa.MapUpdate)
+		if !ok {
+			return
+		}
+		if fld := fieldLoadOf(mu.Map); fld == nil || fld.Name() != "Nodes" {
+			return
+		}
+		if !dependsOn(mu.Key, nodesP) {
+			bad = "a key that does not come from the nodes argument is recorded at " + r.P.Pos(mu.Pos())
+		}
+	})
+	r.Check(bad == "" && saved, rule, fn(f)+"|record content", r.P.Pos(f.Pos()), "the record holds exactly the hashes of the nodes argument and goes to saveDeadNodes",
+		"the dead-node record of a round is not built from this execution's nodes alone ("+bad+"): hashes reported by an earlier, abandoned execution of the same round are pruned although the saved state still uses them")
 }
